@@ -174,7 +174,7 @@ def check_epoch(ctx):
     if b is not None:
         rp = ctx.sites(b, R.call("Guard::repin"), inst, exact=1)
         ld = ctx.sites(b, R.call("TreeSlot::load"), inst, exact=1)
-        rv = ctx.sites(b, R.call("FeoxStore::resolve_value_ref"), inst, exact=1)
+        rv = ctx.sites(b, R.call_reaching("FeoxStore::resolve_record_value", within="FeoxStore"), inst, exact=1)
         # the loaded reference is consumed (value resolved) before the guard may be re-pinned
         R.dom(ctx, inst, b, rv, rp, "the record reference is used up before the guard is re-pinned", a_desc="resolve_value_ref")
         for x in rv:
